@@ -1,3 +1,126 @@
--- stub: replaced by the property author
+import SupervisorModel.Model.Config
+/-
+  C14 — a configuration file determines exactly the configured process set.
+  Property theorems over Model/Config.lean; every table and guard they mention (`Sv.Gen.Config.*`) is
+  regenerated from /repo on each run.
+-/
+set_option linter.unusedSimpArgs false
 namespace Sv.Props.C14
+open Sv Sv.Config Sv.Gen.Config
+
+/-! ### dictionaries -/
+
+theorem lookup_cons' {α : Type} (k a : String) (b : α) (es : List (String × α)) :
+    List.lookup k ((a, b) :: es) = if k = a then some b else List.lookup k es := by
+  rw [List.lookup_cons]
+  by_cases h : k = a
+  · subst h; simp
+  · have : (k == a) = false := by simp [h]
+    simp [this, h]
+
+theorem lookup_dset {α : Type} (d : List (String × α)) (k k' : String) (v : α) :
+    (dset d k' v).lookup k = if k = k' then some v else d.lookup k := by
+  induction d with
+  | nil => simp only [dset, lookup_cons', List.lookup_nil]
+  | cons hd tl ih =>
+    obtain ⟨a, b⟩ := hd
+    simp only [dset]
+    by_cases h : a = k'
+    · subst h; simp only [beq_self_eq_true, if_true, lookup_cons']
+      by_cases h2 : k = a <;> simp [h2]
+    · have : (a == k') = false := by simp [h]
+      simp only [this, lookup_cons', ih]
+      by_cases h2 : k = a
+      · subst h2; simp [h]
+      · simp [h2, lookup_cons', ih]
+
+theorem lookup_append' {α : Type} (l₁ l₂ : List (String × α)) (k : String) :
+    (l₁ ++ l₂).lookup k = (l₁.lookup k <|> l₂.lookup k) := by
+  induction l₁ with
+  | nil => simp
+  | cons hd tl ih =>
+    obtain ⟨a, b⟩ := hd
+    simp only [List.cons_append, lookup_cons', ih]
+    by_cases h : k = a <;> simp [h]
+
+theorem lookup_dupdate {α : Type} (e d : List (String × α)) (k : String) :
+    (dupdate d e).lookup k = (e.reverse.lookup k <|> d.lookup k) := by
+  induction e generalizing d with
+  | nil => simp [dupdate]
+  | cons hd tl ih =>
+    obtain ⟨a, b⟩ := hd
+    simp only [dupdate, List.foldl_cons] at ih ⊢
+    rw [ih, lookup_dset]
+    simp only [List.reverse_cons, lookup_append', lookup_cons', List.lookup_nil]
+    cases List.lookup k tl.reverse <;> by_cases h : k = a <;> simp [h]
+
+/-- **env_precedence.**  The child environment is the [supervisord] environment overridden by the program's:
+    a variable has the program's value when the program sets it (the last binding, as in a Python dict),
+    otherwise the [supervisord] value. -/
+theorem env_precedence (sup prog : KV) (k : String) :
+    (mergeEnv sup prog).lookup k = (prog.reverse.lookup k <|> sup.lookup k) := by
+  simp [mergeEnv, lookup_dupdate]
+
+example : (mergeEnv [("A", "sup"), ("B", "sup")] [("A", "prog")]).lookup "A" = some "prog" := by decide
+example : (mergeEnv [("A", "sup"), ("B", "sup")] [("A", "prog")]).lookup "B" = some "sup" := by decide
+
+/-- every process of the result has the merged environment -/
+theorem env_merged_everywhere (sup : KV) (g : GConfig) :
+    (mergeGroupEnv sup g).procs.map (·.environment) = g.procs.map (fun p => mergeEnv sup p.environment) := by
+  simp [mergeGroupEnv, List.map_map, Function.comp_def]
+
+/-! ### documented defaults -/
+
+/-- the value a coded default denotes; a default that names another local (killasgroup ← stopasgroup)
+    is that option's own converted default -/
+def dfltRaw (scope : String) : Dflt → Option Raw
+  | .none => some .none
+  | .str s => some (.str s)
+  | .int n => some (.int n)
+  | .bool b => some (.bool b)
+  | .auto => some .auto
+  | .required => none
+  | .ref r =>
+    match findRow scope r with
+    | none => none
+    | some row =>
+      match row.dflt with
+      | .str s => match convert row.conv (.str s) with
+        | .ok (.bool b) => some (.bool b)
+        | .ok (.int n) => some (.int n)
+        | .ok (.str t) => some (.str t)
+        | _ => none
+      | _ => none
+
+/-- converted value of an option as the model computes it (log file names go through `logfile_name`) -/
+def effective (row : OptRow) (r : Raw) : Option (CVal ⊕ LogFile) :=
+  if strContains "_logfile" row.opt && row.conv == "" then
+    match logfileName [] r with
+    | .ok l => some (.inr l)
+    | .error _ => none
+  else
+    match convert row.conv r with
+    | .ok v => some (.inl v)
+    | .error _ => none
+
+/-- does the documented default of one option agree with the coded one? -/
+def docAgrees (d : DocRow) : Bool :=
+  match findRow d.scope d.opt with
+  | none => false
+  | some row =>
+    if d.kind == "value" then
+      match dfltRaw d.scope row.dflt with
+      | none => false
+      | some r => (effective row (.str d.text)).isSome && effective row (.str d.text) == effective row r
+    else if d.kind == "unset" then row.dflt == .none || row.dflt == .str ""
+    else true
+
+/-- **defaults_documented.**  For every option of the [program:x], [group:x] and [supervisord] sections that
+    docs/configuration.rst documents, the default written in options.py and the documented default denote the
+    same value under the option's converter (loglevel excepted: its converter lives in the logging module,
+    which is not modelled).  Decided over the two generated tables. -/
+theorem defaults_documented :
+    ∀ d ∈ docTable, d.scope ∈ ["program", "group", "supervisord"] → d.opt ≠ "loglevel" → docAgrees d = true := by
+  decide
+
 end Sv.Props.C14
